@@ -1007,6 +1007,10 @@ def corpus():
             F(70, 'td_i', R('Count'), 'default', I(77)), F(71, 'td_s', R('Label'), 'required', Str('label')), F(72, 'td_l', R('Modes'), 'optional', LL(I(1), Id('Mode.NEG'))),
             F(74, 'td_b', R('OnOff'), 'default', I(1)),
             F(75, 'td_fl', R('inc.Flag'), 'required', I(0)),
+            # integer literals at double targets beyond f32's 24-bit mantissa (and at the edge of f64's 53 bits): `int -> double exactly`
+            F(90, 'd_big', 'double', 'default', I(1700000001)), F(91, 'd_nbig', 'double', 'optional', I(-16777217)),
+            F(92, 'd_2p53', 'double', 'required', I(9007199254740991)), F(93, 'l_dbig', L('double'), 'default', LL(I(16777217), I(-1700000001))),
+            F(94, 'm_dbig', M('i32', 'double'), 'default', LM((I(1), I(123456789)))), F(95, 'd_i64max', 'double', 'default', I(9223372036854775807)),
             F(80, 'no_dflt_opt', 'i32', 'optional'), F(81, 'no_dflt_req', 'string', 'required'), F(82, 'no_dflt', L('i32')),
             F(83, 'req_inner', R('Inner'), 'required'), F(84, 'req_en', R('Mode'), 'required'), F(85, 'req_uuid', 'uuid', 'required'),
         ]),
